@@ -131,6 +131,11 @@ def step (s : St) (toks : List String) : St × String :=
       if s.cfg.isSome || lg > 3 then (s, "bad-op")
       else ({ s with cfg := some (mkCfg p d i c l lg) }, "ok")
     | _, _, _, _, _, _ => (s, "bad-op")
+  | ["conc", n] =>
+    -- concurrency level of the executor: no effect on the outcome (sequential semantics)
+    match s.cfg, n.toNat? with
+    | some _, some n => if 1 ≤ n ∧ n ≤ 8 then (s, "ok") else (s, "bad-op")
+    | _, _ => (s, "bad-op")
   | "tx" :: kind :: f :: t :: v :: l :: rest =>
     match s.cfg, f.toNat?, t.toNat?, v.toNat?, l.toNat? with
     | some _, some f, some t, some v, some l =>
